@@ -695,6 +695,12 @@ func (check typecheck) conversion(n *node, typ *itype) error {
 
 	case n.typ.convertibleTo(typ):
 		ok = true
+		// A typed numeric constant must be representable in a numeric destination type.
+		if tc := typedNumConst(n); tc != nil && isNumber(typ.TypeOf()) {
+			if err := check.representableValue(n, tc, typ.TypeOf()); err != nil {
+				return err
+			}
+		}
 	}
 	if !ok {
 		return n.cfgErrorf("cannot convert expression of type %s to type %s", n.typ.id(), typ.id())
@@ -1151,6 +1157,12 @@ func (check typecheck) representable(n *node, t reflect.Type) error {
 		return nil
 	}
 
+	return check.representableValue(n, c, t)
+}
+
+// representableValue returns an error if the constant value c of node n is not
+// representable in type t.
+func (check typecheck) representableValue(n *node, c constant.Value, t reflect.Type) error {
 	if !representableConst(c, t) {
 		typ := n.typ.TypeOf()
 		if isNumber(typ) && isNumber(t) {
@@ -1169,6 +1181,48 @@ func (check typecheck) representable(n *node, t reflect.Type) error {
 		return n.cfgErrorf("cannot convert %s to %s", c.ExactString(), t.Kind().String())
 	}
 	return nil
+}
+
+// isBinVar returns true if n is a variable of a binary package. Its value is
+// addressable, as is the value of a folded constant expression.
+func isBinVar(n *node) bool {
+	if !n.rval.IsValid() || !n.rval.CanSet() {
+		return false
+	}
+	for n.kind == parenExpr {
+		n = n.lastChild()
+	}
+	return n.kind == selectorExpr || n.sym != nil && n.sym.kind == binSym
+}
+
+// typedNumConst returns the exact value of n if it is a typed numeric constant
+// already converted to a regular value, or nil.
+func typedNumConst(n *node) constant.Value {
+	if n.typ == nil || n.typ.untyped || !n.rval.IsValid() {
+		return nil
+	}
+	if isBinVar(n) {
+		return nil
+	}
+	var c constant.Value
+	switch v := n.rval; {
+	case isUint(v.Type()):
+		c = constant.MakeUint64(v.Uint())
+	case isInt(v.Type()):
+		c = constant.MakeInt64(v.Int())
+	case isFloat(v.Type()):
+		c = constant.MakeFloat64(v.Float())
+	case isComplex(v.Type()):
+		x := v.Complex()
+		c = constant.BinaryOp(constant.MakeFloat64(real(x)), token.ADD, constant.MakeImag(constant.MakeFloat64(imag(x))))
+	default:
+		return nil
+	}
+	if c.Kind() == constant.Unknown {
+		// Infinities and NaNs have no exact value.
+		return nil
+	}
+	return c
 }
 
 func (check typecheck) convertConst(v reflect.Value, t reflect.Type) (reflect.Value, error) {
